@@ -215,7 +215,7 @@ pub async fn exec_c01(script: Value) -> ExecResult {
         for (i, st) in steps.iter().enumerate() {
             sim::event(&format!("step {} {}", i, serde_json::to_string(st).unwrap_or_default()));
             match st {
-                WStep::Restart { .. } | WStep::KillRestart { .. } => {
+                WStep::Restart { .. } | WStep::KillRestart { .. } | WStep::PlantSnapshot { .. } => {
                     settle().await;
                     let when = format!("step {} (restart #{})", i, restarts + 1);
                     let before = observe(&n, "pre").await.map_err(|e| Violation::new(&format!("{}.observe_failed", id), format!("{} before stop: {}", when, e)))?;
@@ -232,6 +232,21 @@ pub async fn exec_c01(script: Value) -> ExecResult {
                     }
                     stop_node(1).await;
                     restarts += 1;
+                    if let WStep::PlantSnapshot { cut, .. } = st {
+                        // what a kill in the middle of the next compaction would have left: the first part of a snapshot
+                        // file under the next snapshot id, not recorded in the index (every acknowledged write is on disk)
+                        let files = tokio::fs::list_files(&format!("{}/n1/", root));
+                        let newest = files.iter().filter_map(|(name, _)| name.rsplit('/').next().and_then(|f| f.strip_prefix("snapshot_")).and_then(|x| x.parse::<u64>().ok()).map(|idn| (idn, name.clone()))).max();
+                        if let Some((idn, name)) = newest {
+                            if let Some(data) = tokio::fs::read_file_raw(&name) {
+                                let keep = data.len() - (data.len() * (*cut as usize % 100).max(1) / 100).max(1);
+                                let planted = name.replace(&format!("snapshot_{}", idn), &format!("snapshot_{}", idn + 1));
+                                tokio::fs::write_file_raw(&planted, data[..keep].to_vec());
+                                sim::count("probe.partial_snapshot_planted", 1);
+                                sim::event(&format!("planted partial snapshot_{} ({} of {} bytes)", idn + 1, keep, data.len()));
+                            }
+                        }
+                    }
                     n = start_node(&root, 1, true, None, &cfg.node).await.map_err(|e| Violation::new(&format!("{}.restart_failed", id), format!("{}: node does not start: {}", when, e)))?;
                     // every incarnation outlives its own one-time start-up timers (default-admin check at
                     // +10.5 s, namespace sync at +5 s): a killed incarnation's actors cannot be destroyed inside
@@ -295,14 +310,14 @@ pub async fn exec_c01(script: Value) -> ExecResult {
                                         let mut sh = 0;
                                         let mut p = pos;
                                         loop {
-                                            if p >= data.len() { break; }
+                                            if p >= data.len() || sh > 56 { break; }
                                             let b = data[p];
                                             l |= ((b & 0x7f) as usize) << sh;
                                             sh += 7;
                                             p += 1;
                                             if b & 0x80 == 0 { break; }
                                         }
-                                        if l == 0 { break; }
+                                        if l == 0 || l > data.len() { break; }
                                         pos = p + l;
                                         cnt += 1;
                                     }
@@ -477,7 +492,7 @@ impl Check for C01 {
         let w = [50u32, 12, 6, 3, 2, 8, 3, 6, 3];
         for _ in 0..n {
             if rng.chance(0.06) {
-                steps.push(WStep::Restart { node: 1 });
+                steps.push(if rng.chance(0.3) { WStep::PlantSnapshot { node: 1, cut: rng.range(1, 95) as u8 } } else { WStep::Restart { node: 1 } });
             } else if rng.chance(0.04) {
                 steps.push(WStep::Advance { ms: *rng.pick(&[100u64, 700, 3000]) });
             } else {
